@@ -10,12 +10,16 @@ PROP = "C08"
 COQ_TARGETS = ["Properties/C08", "Extract/ExRouter"]
 MODEL_ML = "router_model.ml"
 MODEL_NAME = "router"
+GENS = ["gen_src_geonet"]
 TRUSTED_BASE = [
     "Coq 8.16.1 kernel (coqc); no native_compute; vm_compute only in the Example",
     "extraction (ExtrOcamlBasic only; Z/positive stay Coq datatypes) + ocaml/driver_body.ml + OCaml 4.13.1",
     "hand-written models Model/LocT.v, Model/Router.v, Model/RouterIO.v tied to the code by differential execution "
     "of whole histories (this harness, harness/router_sim.py)",
     "Python harness incl. the reference packet builders of harness/stack.py",
+    "translator tools/pyz.py + tools/gen_src_geonet.py (Python ast -> Gallina, fail-closed): the TST operators (__gt__, __ge__, "
+    "__lt__, __le__, __eq__, __sub__, __add__, encode, decode) are regenerated from the source on every run (Gen/SrcGeonet.v) "
+    "and proved equal to the model's tst_gt / tst_sub for all arguments (C08_source_* theorems)",
 ]
 ASSUMPTIONS = [
     "tie by execution: seeded histories of beacons, SHB, TSB, GBC, GAC, GUC, LS packets from 2-4 sources with "
